@@ -24,6 +24,11 @@ type Target struct {
 	// values of the Go expressions Yield there (the rest of the function is not tied)
 	Upto  string
 	Yield []string
+	// trace target: a function without a result whose effects are calls of the listed functions
+	// (exprString of the callee -> "call": the function itself, recursively; "out": an output).
+	// The translation is the list of events (RgLib.rg_ev) in execution order; everything else in
+	// the body must be pure.
+	Trace map[string]string
 }
 
 func set(ss ...string) map[string]bool {
@@ -51,6 +56,10 @@ func Targets() []Target {
 		{Pkg: "render", Key: "dcache2.isEmpty", Opaque: set("dcache2.evaluate")},
 		{Pkg: "render", Key: "newDcache3", SkipFields: set("s", "cache", "lock")},
 		{Pkg: "render", Key: "newDcache2", SkipFields: set("s", "cache", "lock")},
+		{Pkg: "render", Key: "dcache3.processCube", Opaque: set("dcache3.isEmpty", "dcache3.evaluate"),
+			Trace: map[string]string{"dc.processCube": "call", "output.Write": "out"}},
+		{Pkg: "render", Key: "dcache2.processSquare", Opaque: set("dcache2.isEmpty", "dcache2.evaluate"),
+			Trace: map[string]string{"dc.processSquare": "call", "output.Write": "out"}},
 		{Pkg: "render", Key: "dcache3.evaluate", Upto: "dc.read", Yield: []string{"v"}},
 		{Pkg: "render", Key: "dcache2.evaluate", Upto: "dc.read", Yield: []string{"v"}},
 		// render/delaunay.go
@@ -371,7 +380,11 @@ func (g *gen) translate(p *pkg, key string, opt *Target) (*Def, error) {
 		}
 	}
 	prefix := opt != nil && opt.Upto != ""
-	if rt.k == kUnit && !prefix {
+	f.trace = opt != nil && opt.Trace != nil
+	if f.trace && rt.k != kUnit {
+		return nil, f.errf(fd, "trace target with a result")
+	}
+	if rt.k == kUnit && !prefix && !f.trace {
 		return nil, f.errf(fd, "function without a result")
 	}
 	f.ret = rt
@@ -399,6 +412,14 @@ func (g *gen) translate(p *pkg, key string, opt *Target) (*Def, error) {
 		return nil, f.errf(fd, "no call of %s at the top level of the function (prefix target)", opt.Upto)
 	}
 	rt = f.ret
+	if f.trace {
+		for k := 0; k < 2; k++ {
+			if !f.evSet[k] {
+				f.evT[k] = tUnit
+			}
+		}
+		rt = listType(typ{k: kEvent, args: []typ{f.evT[0], f.evT[1]}}, -1)
+	}
 	if rt.k == kStruct || rt.k == kOpaque || rt.k == kUnit {
 		return nil, f.errf(fd, "result type %s", rt.goName())
 	}
@@ -453,6 +474,9 @@ func (g *gen) translate(p *pkg, key string, opt *Target) (*Def, error) {
 	}
 	if mutator {
 		note = "; the receiver after the call"
+	}
+	if f.trace {
+		note = "; the calls of itself (RgCall arguments) and outputs (RgOut value) it makes, in order"
 	}
 	b := binders(params)
 	if b != "" {
